@@ -121,9 +121,9 @@ def expand(unit, repo=None):
                     elif cmd == 'spec': cur = ('spec',)
                     elif cmd == 'entry': cur = ('entry',)
                     elif cmd == 'closure':
-                        mm = re.match(r'(\d+)\s+`(.*)`\s*\|\s*(.*?)\s*\|\s*(.*?)\s*$', arg)
+                        mm = re.match(r'(\d+|\*)\s+`(.*)`\s*\|\s*(.*?)\s*\|\s*(.*?)\s*$', arg)
                         if not mm: raise ExtractError('bad directive: ' + l)
-                        cur = ('closure', int(mm.group(1)), mm.group(2), mm.group(3), mm.group(4))
+                        cur = ('closure', 0 if mm.group(1) == '*' else int(mm.group(1)), mm.group(2), mm.group(3), mm.group(4))
                     elif cmd == 'deimpl': ann['deimpl'] = True
                     elif cmd == 'nested': cur = ('nested', arg.split()[0], arg.split()[1])
                     elif cmd in ('loopentry', 'loopexit'): cur = (cmd, int(arg.split()[0]))
